@@ -56,7 +56,9 @@ def run(cmd, cwd=None, timeout=None, mem_gb=None, stdout_file=None, env=None):
     def pre():
         os.setsid()
         if mem_gb:
-            lim = int(mem_gb * (1 << 30))
+            # address-space cap: twice the stated size plus 4 GB, because cbmc fork()s the external SAT solver (the child briefly doubles the
+            # virtual size; a cap equal to the stated size made that fork fail on otherwise tiny queries)
+            lim = int((2 * mem_gb + 4) * (1 << 30))
             resource.setrlimit(resource.RLIMIT_AS, (lim, lim))
     t0 = time.time()
     out_f = open(stdout_file, 'wb') if stdout_file else subprocess.PIPE
